@@ -24,6 +24,30 @@ CLAIMS = {
         technique=E1, design_ref="4 C17"),
 }
 
+CLAIMS["C16"] = dict(
+    text="For every AtomicBuffer / Flyweight accessor the solver decides, over ALL i32 offsets and lengths (negative, huge, overflowing "
+         "sums included) on a 32-byte region with guard zones: the accessor either panics before touching memory or stays inside the "
+         "region, guard bytes are unchanged, and the value read/written is the region's. CBMC's pointer checks flag any access "
+         "outside the allocation.",
+    note="Dev profile (a dev-only overflow panic counts as a loud refusal); region 32 B, copies <= 40 B, strings <= 12 B; atomics assumed "
+         "naturally aligned (caller precondition); slices longer than 2^31 are outside the bound.",
+    technique=E1, design_ref="4 C16")
+CLAIMS["C14"] = dict(
+    text="All 25 members of the command/event type set are checked against the Aeron control-protocol code table in both directions, and "
+         "every event flyweight getter is compared with an independent protocol-offset encoder for all field values and strings of "
+         "0..8 bytes (image-ready: two consecutive strings with alignment padding).",
+    note="Strings <= 8 bytes without NUL; dispatch from DriverListenerAdapter into the conductor is covered by C09/C10 harnesses where "
+         "the callback is reachable, not here.",
+    technique=E1, design_ref="4 C14")
+CLAIMS["C15"] = dict(
+    text="CountersManager/CountersReader on 2-slot buffers: allocate/allocate/allocate(exhausted)/set/free/clock-advance/allocate with a "
+         "fully symbolic clock and cool-down decides uniqueness of live ids, reuse only at/after the deadline and from value 0, "
+         "side-effect-free failure; reader accessors are decided total for every i32 id; for_each enumerates exactly live counters; "
+         "label 380/381 and key 112/113 boundaries.",
+    note="2 slots, labels <= 3 bytes except the 380/381-byte instances, clock and timeout < 2^62; exact-size buffers so CBMC pointer "
+         "checks catch any out-of-buffer access; one fixed operation history shape (not arbitrary histories).",
+    technique=E1, design_ref="4 C15")
+
 NOT_YET = "check not built yet in this session (planned in DESIGN.md section 4); no claim is made"
 NA = {}
 
